@@ -134,25 +134,44 @@ func (e *Env) getErrorRules(l *facts.Level, wantSentinel func(kind string) []str
 			c.Fail("sentinel-pairing", cons, e.P.Pos(lf.Pos), "error is not errs.Wrap(...)")
 			continue
 		}
+		kindOf := func(g *ir.Term) string {
+			switch {
+			case g.Key() == ir.NotCond(recvNonNil).Key():
+				return "nil-receiver"
+			case lower != nil && g.Key() == ir.Bin("!=", lower, nilOf(errorType)).Key():
+				return "propagate"
+			}
+			for _, fv := range fields {
+				for _, vg := range e.validGuards(l, fv) {
+					if g.Key() == ir.NotCond(vg).Key() {
+						if fv == l.VerField {
+							return "version"
+						}
+						return "field-invalid"
+					}
+				}
+			}
+			return ""
+		}
 		kind := ""
 		if len(lf.Guards) > 0 {
-			last := lf.Guards[len(lf.Guards)-1]
-			switch {
-			case last.Key() == ir.NotCond(recvNonNil).Key():
-				kind = "nil-receiver"
-			case lower != nil && last.Key() == ir.Bin("!=", lower, nilOf(errorType)).Key():
-				kind = "propagate"
-			default:
-				for _, fv := range fields {
-					for _, g := range e.validGuards(l, fv) {
-						if last.Key() == ir.NotCond(g).Key() {
-							if fv == l.VerField {
-								kind = "version"
-							} else {
-								kind = "field-invalid"
-							}
-						}
-					}
+			kind = kindOf(lf.Guards[len(lf.Guards)-1])
+		}
+		if kind == "" {
+			// the tests were all made before the verdict (say, to list every failing metric in the error): the cause
+			// is what the failing tests on the path have in common; every other condition must be a passing test
+			kinds := map[string]bool{}
+			rest := true
+			for _, g := range lf.Guards {
+				if k := kindOf(g); k != "" {
+					kinds[k] = true
+				} else if kindOf(ir.NotCond(g)) == "" {
+					rest = false
+				}
+			}
+			if len(kinds) == 1 && rest {
+				for k := range kinds {
+					kind = k
 				}
 			}
 		}
